@@ -278,7 +278,17 @@ func genSetValue(t *rapid.T, c *Case, idx int, suffix []string) interface{} {
 		return genScalar(t, "")
 	case k >= 88:
 		if m, ok := v.(map[string]interface{}); ok {
-			m[pick(t, "extrakey", []string{"c", "k", "zz"})] = genScalar(t, "")
+			// unused data: a scalar, an empty map, a map holding an empty map
+			var extra interface{}
+			switch rapid.IntRange(0, 3).Draw(t, "extrakind") {
+			case 2:
+				extra = map[string]interface{}{}
+			case 3:
+				extra = map[string]interface{}{pick(t, "extrainner", concKeys): map[string]interface{}{}}
+			default:
+				extra = genScalar(t, "")
+			}
+			m[pick(t, "extrakey", []string{"c", "k", "zz"})] = extra
 		}
 	}
 	return v
